@@ -11,6 +11,8 @@ def jobs(tier):
   if q:
     return [
         Job("lineset", M, "h_lineset", dict(C03_LS_OPS=2, C03_MAXL=4), shards=31, timeout=t),
+        Job("source", M, "h_source", dict(C03_NTEMPL=3, C03_SRC_PRIOR=0), shards=61, timeout=t,
+            note="Directors built from source text through the real directors.parser; appended directive only"),
         Job("director-nested", M, "h_director",
             dict(C03_NPRIOR=0, C03_MAXL=5, C03_MINFUN=2, C03_MAXFUN=2, C03_QOPS=2, C03_ONLY_BRT=1, C03_EXTRA_CALL=0, C03_NDNAMES=3),
             shards=31, timeout=t, note="nested function ranges, implicit-return bad-return-type only"),
@@ -28,6 +30,8 @@ def jobs(tier):
           shards=509, timeout=t),
       Job("director-functions", M, "h_director",
           dict(C03_NPRIOR=0, C03_MAXL=5, C03_MAXFUN=2, C03_QOPS=0, C03_NDNAMES=3), shards=251, timeout=t),
+      Job("source", M, "h_source", dict(C03_NTEMPL=6, C03_SRC_PRIOR=1), shards=509, timeout=t,
+          note="Directors built from source text through the real directors.parser; prior + appended directive"),
       Job("director-all", M, "h_director",
           dict(C03_NPRIOR=1, C03_MAXL=3, C03_MAXFUN=1, C03_PRIOR_CALL=0, C03_EXTRA_CALL=1, C03_QOPS=0, C03_NDNAMES=3, C03_PRIOR_KINDS=2),
           shards=251, timeout=t, note="prior directive and function ranges together"),
@@ -58,7 +62,8 @@ def meta(tier):
       "functions_encoded": [
           "pytype/directors/directors.py: _LineSet.set_line/start_range/__contains__, _BlockRanges.__init__/has_end/find_outermost/adjust_end, "
           "Director.__init__, _parse_src_tree, _process_type, _process_pytype, _process_disable, _adjust_line_number_for_pytype_directive, filter_error",
-          "pytype/errors/errors.py: Error (for_test, set_line), ErrorLog.is_valid_error_name"],
+          "pytype/errors/errors.py: Error (for_test, set_line), ErrorLog.is_valid_error_name",
+          "pytype/directors/parser.py (source job): parse_src, _process_comments, _ParseVisitor (structured_comment_groups, function_ranges, block_returns, decorators)"],
       "bounds": {j.name: j.params for j in jobs(tier)},
       "outside": ["comment extraction and the mapping of comments to statement ranges (directors/parser.py)",
                   "which line the VM reports an error on", "that the stub is unchanged by the comment",
